@@ -101,6 +101,9 @@ class G:
             return self.r.pick(["a", "b", "x", "y", "1", "2", "+", "-", "=", "alpha", "sum", "pi"])
         if r < 8 and self.depth < 4:
             o, c = self.r.pick([("(", ")"), ("[", "]"), ("{", "}"), ("|", "|")])
+            if self.r.chance(1, 6):
+                # a group that holds nothing, or nothing but blanks
+                return o + self.r.pick([" ", "  ", "\n", "", " \n "]) + c
             g = G(self.r, self.depth + 1)
             return o + g.msp(True) + g.math(3) + g.msp(True) + c
         if r < 10 and self.depth < 4:
